@@ -15,11 +15,10 @@
      - `notify_waiters()` increments `calls` and wakes every registered
        waiter; it stores no permit.
 
-   Numbers: `N`.  fetch_add is `N.add`, fetch_sub is the truncated `N.sub`.
-   The u64 wrap-around of fetch_add/fetch_sub is OUTSIDE the model.  None of
+   Numbers: `N`; fetch_add / fetch_sub wrap around modulo 2^64 like the
+   AtomicU64 operations do (initial values and deltas are below 2^64).  None of
    the theorems in Proofs/FlowCtlP.v depends on the arithmetic of the deltas:
-   they only use that a counter keeps its value while no mutator writes it, so
-   the choice N-with-truncation / Z / wrapping u64 is immaterial to them.
+   they only use that a counter keeps its value while no mutator writes it.
 
    A load and the comparison + branch that follows it are one step: the
    comparison is thread-local, so it commutes with every step of every other
@@ -68,8 +67,12 @@ Fixpoint upd {A} (i : nat) (x : A) (l : list A) : list A :=
   | y :: r, S j => y :: upd j x r
   end.
 
+(* fetch_add / fetch_sub on an AtomicU64 wrap around modulo 2^64. *)
 Definition apply (k : mkind) (v d : N) : N :=
-  match k with Inc => v + d | Dec => v - d end.
+  match k with
+  | Inc => (v + d) mod 2 ^ 64
+  | Dec => (v + (2 ^ 64 - d mod 2 ^ 64)) mod 2 ^ 64
+  end.
 
 (* One step of a waiter; ms/bs/ca are the current shared values. *)
 Definition wstep (c : cfg) (ms bs ca : N) (pc : wpc) : option wpc :=
